@@ -1055,9 +1055,14 @@ func (h *histRun) runBlock(b *bhBlock, raw *rawBlock, hooks *stepHooks) (blockRe
 			rb.Txs = append(rb.Txs, bz)
 		}
 		tr := txResult{Kind: t.K}
+		if raw == nil && err != nil {
+			rb.Txs[len(rb.Txs)-1] = []byte{} // empty, not nil: "could not be built", skipped by every replica
+			bz = []byte{}
+			tr.Log = shortLog(err.Error())
+		}
 		switch {
-		case err != nil:
-			tr.Direct = "not-built: " + shortLog(err.Error())
+		case bz != nil && len(bz) == 0:
+			tr.Direct = "not-built"
 			tr.Digest = digest([]byte(tr.Direct))
 		case bz == nil:
 			tr.Direct = r.runDirect(t)
@@ -1073,12 +1078,14 @@ func (h *histRun) runBlock(b *bhBlock, raw *rawBlock, hooks *stepHooks) (blockRe
 			if res.Code != 0 {
 				tr.Log = shortLog(res.Log)
 			}
-			tr.Digest = digest(mustProto(&res))
 			if res.Code == 0 && strings.HasPrefix(t.K, "eth") {
 				if er, err := evmtypes.DecodeTxResponse(res.Data); err == nil && er.VmError != "" {
 					tr.VmErr = shortLog(er.VmError)
 				}
 			}
+			// log and info are documented as non-deterministic and are not part of the results hash
+			res.Log, res.Info = "", ""
+			tr.Digest = digest(mustProto(&res))
 		}
 		br.Txs = append(br.Txs, tr)
 	}
